@@ -132,6 +132,18 @@ def wireMatches (bytes : List Nat) : List EOp → Bool
       | .csi l pm => csiWire l pm
       | _ => [0]
 
+/-- Everything the real Vaxis writes from `New()` until it is ready to render, as the emulator's parser
+    delivers it (compared with the real byte stream on every run): the alternate-screen prelude of
+    `sendQueries()`, the queries, leaving the alternate screen, then `enterAltScreen()` and
+    `enableModes()` under the capabilities detected inside the emulator (sixel scrolling 8452,
+    Unicode core 2027, bracketed paste, application cursor keys / keypad, mouse modes). -/
+def startupAll : List EOp :=
+  [q [63, 104] [1049], q [63, 108] [25], q [109] []] ++ startupQueries ++
+  [q [63, 104] [25], q [72] [], q [74] [2], q [63, 108] [1049], q [109] [],
+   q [63, 104] [1049], q [63, 108] [25], q [109] [],
+   q [63, 104] [8452], q [63, 104] [2027], q [63, 104] [2004], q [63, 104] [1], .esc [61],
+   q [63, 104] [1002], q [63, 104] [1003], q [63, 104] [1004], q [63, 104] [1006], q [109] []]
+
 /-- The emulator model over a list of sequences, with the replies it writes, in order. -/
 def runQ (hostBg : Option (Nat × Nat × Nat)) : Emu → List EOp → M (Emu × List Input.Seq)
   | e, [] => .ok (e, [])
